@@ -164,7 +164,7 @@ class SMMap(Map[SMNoteList, SMHitList, SMHoldList, SMBpmList], SMMapMeta):
             # As we only use measures that exist, we skip those that don't
             # We add those as padded 0000s.
             for _ in range(measure - prev_measure - 1):
-                out.append("\n".join(["0000"] * METRONOME))
+                out.append("\n".join(["0" * keys] * METRONOME))
             prev_measure = measure
 
             # We find maximum LCM denominator that works for all snaps
